@@ -59,6 +59,13 @@ SIGS3 = {
     "s-v>v-s": ([((0, 0), 1), ((1, 0), 1)], [((1, 0), 1), ((0, 0), 1)]),
 }
 
+# signatures for the histories on a bank of side length M = 1 (the pointwise filters: delta (0,0), Kronecker
+# delta (2,0), Levi-Civita (2,1)): every output type is reached from some input type through one of them
+SIGS2_M1 = {
+    "s-v-pv>s-v-pv": ([((0, 0), 1), ((1, 0), 1), ((1, 1), 1)], [((0, 0), 1), ((1, 0), 1), ((1, 1), 1)]),
+    "s-v>s-pv": ([((0, 0), 2), ((1, 0), 2)], [((0, 0), 1), ((1, 1), 2)]),
+}
+
 _CLASSES = {}
 
 
@@ -140,7 +147,7 @@ def build_model(cfg):
 
     D = cfg["D"]
     ks = (0, 1, 2)
-    bank = equiv.filter_bank(D, Ms=(3,), ks=ks)
+    bank = equiv.filter_bank(D, Ms=(int(cfg.get("M", 3)),), ks=ks)  # side length of the conv filters (3, or 1: pointwise)
     sig_in = equiv.signature([(tuple(kp), c) for kp, c in cfg["sig_in"]])
     sig_out = equiv.signature([(tuple(kp), c) for kp, c in cfg["sig_out"]])
     key = random.PRNGKey(cfg["init_seed"])
@@ -427,6 +434,7 @@ def judge(ctx: Ctx, cfg: dict, obs: dict):
         ctx.hist(h, cfg[h])
     ctx.hist("spatial", "x".join(str(s) for s in cfg["spatial"]))
     ctx.hist("steps", steps)
+    ctx.hist("M", cfg.get("M", 3))
     case = {"config": cfg, "observed": summary, "replay_hint": "execute(ctx, config) in harness/props/c09.py"}
     if diverged:
         # training blew up (non-finite values, or a model so ill-conditioned that float32 carries no verdict)
@@ -554,12 +562,14 @@ def base_cfg(rng, **over):
         "D": 2, "spatial": [4, 4], "is_torus": [True, True], "depth": 2, "levels": 1, "activation": "gelu",
         "use_bias": "auto", "group_norm": True, "preact": False, "n_train": 4, "batch": 2, "epochs": 2,
         "validation": False, "stop": "epochs", "patience": 0, "keep_epoch": 0, "lr": 0.02, "weight_decay": 0.2,
-        "input_kinds": ["normal", "normal"], "n_group": 7, "dilation": 1, "loss": "smse",
+        "input_kinds": ["normal", "normal"], "n_group": 7, "dilation": 1, "loss": "smse", "M": 3,
     }
     cfg.update(over)
     if cfg["n_train"] is None:  # exactly one optimiser step per epoch (the pulling loss is taken for one step)
         cfg["n_train"] = cfg["batch"]
     sigs = SIGS3 if cfg["D"] == 3 else (SIGS2_CONV if cfg["arch"] == "conv" else SIGS2)
+    if cfg["M"] == 1 and cfg["D"] == 2:
+        sigs = SIGS2_M1
     if "sig" not in cfg:
         names = sorted(sigs)
         cfg["sig"] = names[int(rng.integers(len(names)))]
@@ -569,7 +579,7 @@ def base_cfg(rng, **over):
     for s in ("init_seed", "train_seed", "run_seed"):
         cfg.setdefault(s, int(rng.integers(2**31 - 1)))
     cfg["name"] = f"{cfg['arch']}/{cfg['sig']}/{cfg['optimizer']}/b{cfg['batch']}e{cfg['epochs']}" + (
-        "" if cfg["loss"] == "smse" else "/" + cfg["loss"])
+        "" if cfg["loss"] == "smse" else "/" + cfg["loss"]) + ("" if cfg["M"] == 3 else f"/M{cfg['M']}")
     return cfg
 
 
@@ -614,6 +624,10 @@ def plan(ctx: Ctx) -> list:
                             stop="reused", sig=pick(["s-v>v-s", "s-v>s-v-ps"]), use_bias=pick(bias_modes)))
         out.append(base_cfg(rng, arch="groupavg", optimizer=pick(["sgd", "adam"]), lr=0.02, batch=2, epochs=1,
                             sig=pick(["s-v>v-s", "s-ps>v"]), use_bias=pick(bias_modes), input_kinds=["normal"]))
+        # one history (2 optimiser steps) on the bank of side length 1: pointwise convolutions
+        out.append(base_cfg(rng, arch=["block", "conv"][ctx.seed % 2], M=1, optimizer=pick(["adam", "adamw", "sgd"]),
+                            lr=0.03, weight_decay=0.2, batch=2, epochs=1, n_train=4, use_bias=pick(bias_modes),
+                            activation=pick(acts), is_torus=pick([[True, True], [False, False]])))
         return out
     # thorough: 3 optimisers x 5 architectures, then variations
     for arch in ["conv", "block", "unet", "resnet", "dilresnet"]:
@@ -660,6 +674,14 @@ def plan(ctx: Ctx) -> list:
                           n_train=None, use_bias=pick(bias_modes[:2]), activation=pick(acts)))
     for e in extra:
         out.append(base_cfg(rng, **e))
+    # histories (2 optimiser steps each) on the bank of side length 1: pointwise convolutions
+    for arch, opt, sig, torus in (("block", "adam", "s-v-pv>s-v-pv", [True, True]),
+                                  ("conv", "adamw", "s-v>s-pv", [False, False]),
+                                  ("block", "sgd", "s-v>s-pv", [True, False]),
+                                  ("conv", "sgd-momentum", "s-v-pv>s-v-pv", [True, True])):
+        out.append(base_cfg(rng, arch=arch, M=1, optimizer=opt, lr=0.03, weight_decay=0.2, batch=2, epochs=1, n_train=4,
+                            sig=sig, is_torus=torus, spatial=[4, 6] if arch == "conv" else [4, 4],
+                            use_bias=pick(bias_modes), activation=pick(acts)))
     return out
 
 
@@ -705,7 +727,7 @@ def set_texts(ctx: Ctx):
         "selection, or ONE TrainLoss object reused for two consecutive ml.train calls (a non-equivariant baseline first, "
         "whose loss the second call never beats); one history per run on a signature without pseudo-types (complete "
         "filter table, equal channel counts, hidden signature listing the vector first); one history per run whose model is "
-        "the group-averaging wrapper in inference mode around a non-equivariant layer; smse loss, in one history per tier and architecture plus a quadratic pull of all parameters "
+        "the group-averaging wrapper in inference mode around a non-equivariant layer; one history per run (four in thorough) of 2 optimiser steps whose conv filters are the bank of side length M = 1 (pointwise: delta, Kronecker delta, Levi-Civita), all others M = 3; smse loss, in one history per tier and architecture plus a quadratic pull of all parameters "
         "towards generic far-away values), observed "
         "at the returned model: static structure, filter-bank leaves, parameter leaves, and model(g.x) = g.model(x) "
         "for all 7 non-identity g of B_2 (7 seeded elements of B_3 incl. a reflection and an axis swap for the d=3 run) "
